@@ -220,6 +220,9 @@ func c10(c *Ctx) {
 
 	// R-C10.4
 	c01Authorize(c)
+	// the decryption the request is authenticated by (C11's key-pair and attempt rules, evaluated here too)
+	r.Rule("R-C11.1", "DecryptMessage: every attempt uses (key ID, key) from one producer call; a successful attempt is final; success only after an attempt succeeded (C11's rules, evaluated here: rotation is authenticated by this decryption)")
+	c11Decrypt(c)
 
 	// R-C10.5
 	cg := core.BuildCallGraph(p)
